@@ -7,6 +7,8 @@
      ibefore/iafter/ieqb    = Time.Before / After / Equal (no monotonic reading: parsed times have none)
      format_utc_seconds     = t.UTC().Format("2006-01-02T15:04:05Z")
      format_rfc3339nano_utc = t.UTC().Format(time.RFC3339Nano)
+     parse_rfc3339_strict   = Time.UnmarshalText([]byte(s))   (= parseStrictRFC3339)
+     marshal_text_utc       = t.UTC().MarshalText()
    Proofs are in TimeProofs.v; the correspondence check is harness/cmd/timediff.
 
    Numbers are Z (Go: int / int64 / uint64).  The model is exact as long as Go's arithmetic does
@@ -279,6 +281,53 @@ Definition parse_fields (s : string) : option fields := parse_fields_l (list_asc
 Definition parse_rfc3339 (s : string) : option instant :=
   option_map instant_of_fields (parse_fields s).
 
+(* ---------- Time.UnmarshalText([]byte(s)) = parseStrictRFC3339 (format_rfc3339.go) ---------- *)
+(* This is what encoding/xml (and encoding/json, modulo quotes) uses for time.Time / pointer-to-time.Time
+   fields, time.Time being an encoding.TextUnmarshaler.  Source, go1.24.0:
+
+     t, ok := parseRFC3339(b, Local)
+     if !ok {
+         t, err := Parse(RFC3339, string(b))
+         if err != nil { return Time{}, err }
+         switch {
+         // TODO(https://go.dev/issue/54580): Strict parsing is disabled for now.
+         case true:
+             return t, nil
+         case b[len("2006-01-02T")+1] == ':': ...            // hour must be two digits
+         case b[len("2006-01-02T15:04:05")] == ',': ...      // separator must be a period
+         case b[len(b)-1] != 'Z': ... zone hour >= 24 / zone minute >= 60 ...
+         }
+     }
+     return t, nil
+
+   The first switch case is the constant [true], so the "extra strictness" cases are dead code in
+   go1.24.0: UnmarshalText accepts exactly what time.Parse(time.RFC3339, _) accepts (1-digit hour,
+   ',' fractions, "+24:60", ...) and yields the same instant.  The model keeps the shape of the
+   source; TimeProofs.parse_rfc3339_strict_eq proves it equal to [parse_rfc3339], and timediff
+   checks it against the real UnmarshalText. *)
+Definition strict_checks_enabled : bool := false.        (* the "case true:" above *)
+
+(* the disabled checks of issue 54580, kept for reference: true = reject *)
+Definition strict_rejects (b : list ascii) : bool :=
+  Ascii.eqb (nth 12 b "0"%char) ":" ||
+  Ascii.eqb (nth 19 b "0"%char) "," ||
+  (negb (Ascii.eqb (last b "Z"%char) "Z") &&
+   (let r := rev b in
+    (* num2(b[len(b)-len("07:00"):]) >= 24 || num2(b[len(b)-len("00"):]) >= 60 *)
+    (24 <=? dval (nth 4 r "0"%char) * 10 + dval (nth 3 r "0"%char)) ||
+    (60 <=? dval (nth 1 r "0"%char) * 10 + dval (nth 0 r "0"%char)))).
+
+Definition parse_rfc3339_strict (s : string) : option instant :=
+  let b := list_ascii_of_string s in
+  match fast_fields b with
+  | Some f => Some (instant_of_fields f)
+  | None =>
+      match parse_rfc3339 s with
+      | None => None
+      | Some t => if strict_checks_enabled && strict_rejects b then None else Some t
+      end
+  end.
+
 (* ---------- formatting ---------- *)
 (* decimal digits of u >= 0, most significant first ([fuel] digits at most; 20 suffices for uint64) *)
 Fixpoint digits_fuel (fuel : nat) (u : Z) (acc : list ascii) : list ascii :=
@@ -335,6 +384,14 @@ Definition format_utc_seconds (t : instant) : string :=
 Definition format_rfc3339nano_utc (t : instant) : string :=
   string_of_list_ascii (format_date_time t ++ append_nano9 (i_nsec t) ++ ["Z"%char]).
 
+(* t.UTC().MarshalText() = appendStrictRFC3339: the RFC3339Nano text, or an error when the year is
+   not exactly four digits wide (b[4] != '-'), i.e. outside [0,9999].  (The zone-hour check of the
+   source cannot fire for UTC, whose text ends in 'Z'.)  encoding/xml marshals time.Time through
+   MarshalText, in the time's own location; this models the UTC case. *)
+Definition marshal_text_utc (t : instant) : option string :=
+  let b := format_date_time t ++ append_nano9 (i_nsec t) ++ ["Z"%char] in
+  if Ascii.eqb (nth 4 b "0"%char) "-" then Some (string_of_list_ascii b) else None.
+
 (* ---------- observables for the correspondence check (harness/cmd/timediff) ---------- *)
 Definition parse_obs (s : string) : val :=
   match parse_rfc3339 s with
@@ -342,6 +399,12 @@ Definition parse_obs (s : string) : val :=
   | None => VC "None" []
   end.
 
+Definition strict_obs (s : string) : val :=
+  match parse_rfc3339_strict s with
+  | Some t => VC "Some" [VZ (i_sec t); VZ (i_nsec t)]
+  | None => VC "None" []
+  end.
+
 Definition format_obs (p : Z * Z) : val :=
   let t := {| i_sec := fst p; i_nsec := snd p |} in
-  VL [VS (format_utc_seconds t); VS (format_rfc3339nano_utc t)].
+  VL [VS (format_utc_seconds t); VS (format_rfc3339nano_utc t); opt_val VS (marshal_text_utc t)].
